@@ -99,6 +99,7 @@ type Lemma struct {
 	Line  int
 	File  string
 	Trust []string
+	Uses  []string // "F(a, b) as r": assume the ensures of contract F for arguments a, b and result r
 }
 
 type StructInv struct {
@@ -132,7 +133,7 @@ var clauseKeywords = map[string]bool{
 	"tags": true, "requires": true, "ensures": true, "atrelease": true, "modifies": true, "loop": true, "invariant": true,
 	"trusted": true, "pure": true, "safety": true, "nosafety": true, "inline": true, "acquires": true, "releases": true,
 	"site": true, "params": true, "hyp": true, "show": true, "vars": true, "smt": true, "protects": true, "inv": true, "guar": true,
-	"havoc": true, "loopmodifies": true, "assume": true, "trust": true,
+	"havoc": true, "loopmodifies": true, "assume": true, "trust": true, "use": true,
 }
 var declKeywords = map[string]bool{
 	"func": true, "spec": true, "monitor": true, "lemma": true, "structinv": true, "global": true, "axiom": true, "order": true, "libspec": true, "iface": true,
@@ -396,6 +397,8 @@ func parseContractFile(path, pkg string) (*ContractFile, error) {
 					curLemma.Raw += it.text + "\n"
 				case "trust":
 					curLemma.Trust = append(curLemma.Trust, strings.TrimSpace(it.text))
+				case "use":
+					curLemma.Uses = append(curLemma.Uses, strings.TrimSpace(it.text))
 				default:
 					return nil, fmt.Errorf("%s:%d: clause %q not valid in lemma", path, it.line, it.kw)
 				}
